@@ -76,21 +76,21 @@ type jbstep struct {
 var modelKind = map[int]kind{1: kSiacoin, 2: kSiafund, 3: kFileContract, 4: kV2FileContract, 5: kAttestation, 6: kChainIndex}
 
 type bstats struct {
-	steps, nontrivial                         int64
-	blocks, reverts                           int64
-	txs                                       map[string]int64 // by "v<ver>-<op>"
-	ephSC                                     map[string]int64 // spender/creator versions: "v1<-v1", "v2<-v1", "v2<-v2"
-	ephSF                                     map[string]int64 // "v1", "v2"
-	fcFormRev, fcFormProve, fcRevProve        int64            // v1 contract formed+revised / formed+proved / (existing) revised+proved in one block
-	v2RevTwice, v2RevResolve                  int64            // v2 contract revised twice / revised and resolved in one block
-	fcRevTwice                                int64
-	addedSpent                                map[string]int64 // leaves that ENTER the accumulator spent/resolved, by kind
-	revertsOfEphemeral                        int64            // reverted blocks that had added a spent leaf
-	expiring                                  int64
-	mixedBlocks                               int64 // blocks with v1 and v2 transactions
-	maxLeaves                                 int
-	distinct                                  map[uint64]struct{}
-	st                                        *stats
+	steps, nontrivial                  int64
+	blocks, reverts                    int64
+	txs                                map[string]int64 // by "v<ver>-<op>"
+	ephSC                              map[string]int64 // spender/creator versions: "v1<-v1", "v2<-v1", "v2<-v2"
+	ephSF                              map[string]int64 // "v1", "v2"
+	fcFormRev, fcFormProve, fcRevProve int64            // v1 contract formed+revised / formed+proved / (existing) revised+proved in one block
+	v2RevTwice, v2RevResolve           int64            // v2 contract revised twice / revised and resolved in one block
+	fcRevTwice                         int64
+	addedSpent                         map[string]int64 // leaves that ENTER the accumulator spent/resolved, by kind
+	revertsOfEphemeral                 int64            // reverted blocks that had added a spent leaf
+	expiring                           int64
+	mixedBlocks                        int64 // blocks with v1 and v2 transactions
+	maxLeaves                          int
+	distinct                           map[uint64]struct{}
+	st                                 *stats
 }
 
 func newBStats() *bstats {
@@ -142,22 +142,25 @@ type bframe struct {
 }
 
 type bworld struct {
-	c     *vlib.Ctx
-	bst   *bstats
-	raw   string
-	salt  uint64
-	n     *consensus.Network
-	sk    types.PrivateKey
-	uc    types.UnlockConditions
-	pol   types.SpendPolicy
-	addr  types.Address
-	cs    consensus.State
-	cl    *chainClient
-	stack []bframe
-	ids   map[uint64]types.BlockID // block id by height (current branch)
-	old   *forest
-	nonce uint64
+	c      *vlib.Ctx
+	bst    *bstats
+	raw    string
+	salt   uint64
+	n      *consensus.Network
+	sk     types.PrivateKey
+	uc     types.UnlockConditions
+	pol    types.SpendPolicy
+	addr   types.Address
+	cs     consensus.State
+	cl     *chainClient
+	stack  []bframe
+	ids    map[uint64]types.BlockID // block id by height (current branch)
+	old    *forest
+	nonce  uint64
 	auLast consensus.ApplyUpdate
+	// dry: failures are collected in dryFails instead of being reported (selftest of the expected side)
+	dry      bool
+	dryFails []string
 }
 
 func pow2(k uint) types.Currency {
@@ -168,6 +171,10 @@ func pow2(k uint) types.Currency {
 }
 
 func (w *bworld) violation(key, what string, step int) {
+	if w.dry {
+		w.dryFails = append(w.dryFails, "blocks-"+key)
+		return
+	}
 	w.c.Violation("blocks-"+key, fmt.Sprintf("[TLC block history, step %d] %s", step, what),
 		map[string]any{"part": "blocks", "salt": w.salt, "failed_step": step, "tlc_behaviour": w.raw})
 }
@@ -214,6 +221,9 @@ func (w *bworld) compare(phase string, step int, s jbsnap) (ok bool) {
 		}
 		if t.ver != m[1] {
 			hpanic("%s step %d: leaf %d was revised in %d blocks according to the diffs, %d in the model", phase, step, i, t.ver, m[1])
+		}
+		if t.k == kSiafund && t.sf.SiafundOutput.Value != 1<<uint(m[7]) {
+			hpanic("%s step %d: siafund leaf %d holds %d SF, in the model 2^%d", phase, step, i, t.sf.SiafundOutput.Value, m[7])
 		}
 		if t.k == kSiacoin && t.sc.MaturityHeight != uint64(m[4]) {
 			hpanic("%s step %d: siacoin leaf %d matures at %d, in the model at %d", phase, step, i, t.sc.MaturityHeight, m[4])
@@ -359,11 +369,11 @@ func (w *bworld) sealAndApply(step int, v1 []types.Transaction, v2 []types.V2Tra
 // concretising abstract transactions
 
 type inblock struct {
-	sc map[[2]int]types.SiacoinElement      // (t, o) -> ephemeral element
-	sf map[[2]int]types.SiafundElement      // (t, o)
-	fc map[[2]int]types.FileContractID      // (t, 0)
-	ver map[int]int                          // version of transaction t
-	curFC map[types.FileContractID]types.FileContract     // latest revision inside this block
+	sc    map[[2]int]types.SiacoinElement             // (t, o) -> ephemeral element
+	sf    map[[2]int]types.SiafundElement             // (t, o)
+	fc    map[[2]int]types.FileContractID             // (t, 0)
+	ver   map[int]int                                 // version of transaction t
+	curFC map[types.FileContractID]types.FileContract // latest revision inside this block
 	curV2 map[types.FileContractID]types.V2FileContract
 	tax   types.Currency // siafund tax revenue as of the transactions built so far
 }
@@ -480,7 +490,7 @@ func (w *bworld) buildBlock(step int, st jbstep) (v1 []types.Transaction, v2 []t
 						hpanic("step %d tx %d: unknown in-block siafund output", step, t1)
 					}
 					w.bst.ephSF["v1"]++
-					}
+				}
 				txn.SiafundInputs = []types.SiafundInput{{ParentID: e.ID, UnlockConditions: w.uc, ClaimAddress: w.addr}}
 				sigParents = append(sigParents, types.Hash256(e.ID))
 				for _, v := range splitSF(e.SiafundOutput.Value, tx.Nsf) {
@@ -536,15 +546,14 @@ func (w *bworld) buildBlock(step int, st jbstep) (v1 []types.Transaction, v2 []t
 				if tx.C.T == 0 {
 					t := elem(tx.C.O, kFileContract)
 					id = t.fc.ID
+					// (a contract revised earlier in this block is taken, with its window, from the MidState: the
+					// supplement presented the element to the revising transaction)
 					if _, revised := ib.curFC[id]; !revised {
 						wid, ok := w.ids[t.fc.FileContract.WindowStart-1]
 						if !ok {
 							hpanic("step %d tx %d: no block at height %d for the proof window", step, t1, t.fc.FileContract.WindowStart-1)
 						}
 						ts.StorageProofs = append(ts.StorageProofs, consensus.V1StorageProofSupplement{FileContract: t.fc.Copy(), WindowID: wid})
-					} else {
-						// revised earlier in this block: the code takes contract and window from the MidState, the
-						// supplement still has to present the element for the revision
 					}
 				} else {
 					var ok bool
@@ -735,6 +744,67 @@ func splitSF(v uint64, n int) []uint64 {
 
 // runBlocks replays one behaviour of AccBlocks on a real chain.
 func runBlocks(c *vlib.Ctx, bst *bstats, raw string, salt uint64) {
+	runBlocksMode(c, bst, raw, salt, false)
+}
+
+// blocksSelftest: the binding on the expected side. One TLC behaviour in which a leaf enters the
+// accumulator spent is replayed with ONE logged field corrupted -- (1) that leaf's flag in every term of
+// the model's forest (spent -> unspent, the forest of a model that forgot the ephemeral spend), (2) the
+// logged status of that leaf, (3) the logged leaf count -- and the comparison must reject each.
+func blocksSelftest(c *vlib.Ctx, hs []string) {
+	for _, raw := range hs {
+		var steps []jbstep
+		if err := json.Unmarshal([]byte(raw), &steps); err != nil || len(steps) < 2 || steps[1].Op != "block" {
+			continue
+		}
+		n0, leaf := int(steps[0].S.N), -1
+		for i, m := range steps[1].S.Meta {
+			if i >= n0 && m[2] == 1 {
+				leaf = i
+				break
+			}
+		}
+		if leaf < 0 {
+			continue
+		}
+		try := func(mut func(st *jbstep)) []string {
+			var cp []jbstep
+			json.Unmarshal([]byte(raw), &cp)
+			mut(&cp[1])
+			b, _ := json.Marshal(cp)
+			w := runBlocksMode(c, newBStats(), string(b), 77, true)
+			return w.dryFails
+		}
+		tokS, tokU := fmt.Sprintf("L%dv0@%ds", leaf, leaf), fmt.Sprintf("L%dv0@%du", leaf, leaf)
+		f1 := try(func(st *jbstep) {
+			for i := range st.S.Trees {
+				st.S.Trees[i] = strings.ReplaceAll(st.S.Trees[i], tokS, tokU)
+			}
+			for i := range st.S.Proofs {
+				for j := range st.S.Proofs[i] {
+					st.S.Proofs[i][j] = strings.ReplaceAll(st.S.Proofs[i][j], tokS, tokU)
+				}
+			}
+		})
+		f2 := try(func(st *jbstep) { st.S.Meta[leaf][2] = 0 })
+		f3 := try(func(st *jbstep) { st.S.N++ })
+		var keys []string
+		for i, f := range [][]string{f1, f2, f3} {
+			if len(f) == 0 {
+				c.Fatal("blocks selftest %d: a corrupted expectation was accepted -- the comparison is not binding", i+1)
+			}
+			keys = append(keys, f[0])
+		}
+		if ok := try(func(*jbstep) {}); len(ok) != 0 {
+			c.Fatal("blocks selftest: the uncorrupted behaviour is rejected (%v)", ok)
+		}
+		c.Cov("blocks_selftest_corrupted_expectations_rejected", keys)
+		return
+	}
+	c.Fatal("blocks selftest: no behaviour with a leaf entering spent")
+}
+
+func runBlocksMode(c *vlib.Ctx, bst *bstats, raw string, salt uint64, dry bool) *bworld {
 	var steps []jbstep
 	if err := json.Unmarshal([]byte(raw), &steps); err != nil {
 		c.Fatal("cannot read a block history printed by TLC: %v in %s", err, vlib.Tail(raw, 200))
@@ -742,13 +812,18 @@ func runBlocks(c *vlib.Ctx, bst *bstats, raw string, salt uint64) {
 	if len(steps) == 0 || steps[0].Op != "init" {
 		c.Fatal("block history does not start with init")
 	}
-	w := &bworld{c: c, bst: bst, raw: raw, salt: salt, cl: &chainClient{elems: map[uint64]*telem{}, byID: map[types.Hash256]uint64{}}, ids: map[uint64]types.BlockID{}}
+	w := &bworld{c: c, bst: bst, raw: raw, salt: salt, dry: dry, cl: &chainClient{elems: map[uint64]*telem{}, byID: map[types.Hash256]uint64{}}, ids: map[uint64]types.BlockID{}}
 	if p, v := vlib.Recover(func() { w.run(steps) }); p {
 		if he, ok := v.(harnessErr); ok {
+			if dry { // a corrupted expectation may also trip a consistency check of the binding: rejected as well
+				w.dryFails = append(w.dryFails, "binding: "+string(he))
+				return w
+			}
 			c.Fatal("harness error in a TLC block history (salt %d): %s\n%s", salt, string(he), vlib.Tail(raw, 300))
 		}
 		panic(v)
 	}
+	return w
 }
 
 func (w *bworld) run(steps []jbstep) {
@@ -777,7 +852,7 @@ func (w *bworld) run(steps []jbstep) {
 		case kSiacoin:
 			gtxn.SiacoinOutputs = append(gtxn.SiacoinOutputs, types.SiacoinOutput{Value: pow2(120), Address: w.addr})
 		case kSiafund:
-			gtxn.SiafundOutputs = append(gtxn.SiafundOutputs, types.SiafundOutput{Value: 1 << 62, Address: w.addr})
+			gtxn.SiafundOutputs = append(gtxn.SiafundOutputs, types.SiafundOutput{Value: 1 << uint(m[7]), Address: w.addr})
 		case kFileContract:
 			fc := types.FileContract{WindowStart: uint64(m[5]), WindowEnd: uint64(m[6]), Payout: pow2(40), UnlockHash: w.addr}
 			tax := n.GenesisState().FileContractTax(fc)
@@ -953,6 +1028,7 @@ func runBlockHistories(c *vlib.Ctx, st *stats) (steps, nontrivial int64) {
 		c.Fatal("AccBlocks exhaustive: %d behaviours printed, %d states", len(ex), res.Distinct)
 	}
 	replayBlocks(c, tot, ex, uint64(c.Seed)<<32+2<<28)
+	blocksSelftest(c, ex)
 	c.Traces(int64(len(ex)))
 	c.Cov("blocks_exhaustive_single_blocks", len(ex))
 	c.Cov("blocks_exhaustive_states", res.Distinct)
